@@ -128,11 +128,12 @@ def run(ch, config, res):
             if op in ("add", "update"):
                 struct, values = E.gen_definition(wl, "def", "c19")
                 conds, acts, mt = E.fill(struct, values)
+                default_mt = mt == "anyof" and wl.flag("default_matchtype", 1, 2)
                 n2 = NAMES[wl.int("name2", len(NAMES))] if op == "update" else None
                 if op == "add":
-                    rc = E.classify(lambda: (fs.addfilter(n, conds, acts, mt), True)[1])
+                    rc = E.classify(lambda: (fs.addfilter(n, conds, acts, mt) if not default_mt else fs.addfilter(n, conds, acts), True)[1])
                 else:
-                    rc = E.classify(lambda: fs.updatefilter(n, n2, conds, acts, mt))
+                    rc = E.classify(lambda: (fs.updatefilter(n, n2, conds, acts, mt) if not default_mt else fs.updatefilter(n, n2, conds, acts)))
                 if rc[0].startswith("raised:"):
                     failure = Failure(PROP, "C19.cond", "%s: building %r raised %s: %s" % (label, (conds, acts, mt), rc[0][7:], rc[2]), {})
                     break
